@@ -128,6 +128,10 @@ pub trait DecisionNNFBuilder<'a>: TopDownBuilder<'a, BddPtr<'a>> {
         };
 
         let mut r = self.topdown_h(cnf, &mut sat, 0, &mut FxHashMap::default());
+        if r.is_false() {
+            // unsatisfiable under the initially implied literals: stay the false constant
+            return r;
+        }
 
         // conjoin in any initially implied literals
         for l in sat.difference_iter() {
